@@ -52,6 +52,9 @@ F2 == F(<<"img", "f2.bin">>, "plain", "binary", <<dirp("plain")>>, NoOwn,
          cop |-> IF HasCop(i2) THEN <<"SPDX-FileCopyrightText: 2018 Second Author">> ELSE <<>>,
          lic |-> IF HasLic(i2) THEN <<L("MIT")>> ELSE <<>>, bad |-> i2 = "bad"], FALSE)
 F3 == F(<<"docs", "f3.txt">>, "plain", "text", <<dirp("plain")>>, NoOwn, NoDot, FALSE)
+(* f4 declares only its copyright: the licence comes from the same closest table as f3's information *)
+F4 == F(<<"docs", "f4.txt">>, "plain", "text", <<dirp("plain")>>,
+        Own(<<"SPDX-FileCopyrightText: 2016 Fourth Author">>, <<>>), NoDot, FALSE)
 Toml == [dir |-> <<>>, dirchars |-> <<>>, srcstr |-> "REUSE.toml",
          tables |-> <<[globs |-> <<Chars("docs/**")>>, prec |-> "closest",
                        cop |-> IF HasCop(i3) THEN <<"2017 Third Author">> ELSE <<>>,
@@ -78,7 +81,7 @@ Distractors ==
       Silent(<<"src", "empty.py">>, "plain", "empty", <<dirp("plain")>>),
       Silent(<<"src", "link.py">>, "plain", "symlink", <<dirp("plain")>>),
       Silent(<<".reuse", "templates", "t.jinja2">>, "plain", "text", <<dirp(".reuse"), dirp("plain")>>) >>
-Proj == [files |-> <<Good(<<"base.py">>, "MIT"), F1, F2, F3>> \o InvFiles \o Distractors,
+Proj == [files |-> <<Good(<<"base.py">>, "MIT"), F1, F2, F3, F4>> \o InvFiles \o Distractors,
          licfiles |-> LicFiles, tomls |-> <<Toml>>, dep5 |-> <<>>,
          opts |-> [submodules |-> FALSE, meson |-> FALSE],
          cls |-> [s \in {"MIT", "ISC", "Zlib", "0BSD", "GPL-2.0", "Nonexistent-1.0", "BSL-1.0", "X11"} |->
@@ -106,5 +109,5 @@ LedgerMatchesR ==
       /\ (Deprecated(p) # {}) = ("deprecated" \in Ledger) /\ (NoExt(p) # {}) = ("noext" \in Ledger)
 VerdictIsSoundAndComplete == Done => (Compliant(ProjR) <=> Ledger = {})
 MechanismMeetsRequirement == Done => (MCompliant(ProjR) <=> Compliant(ProjR))
-OnlyCoveredFilesCount == Done => \A k \in 1..Len(ProjR.files) : ProjR.files[k].cov <=> k <= 4 + Len(InvFiles)
+OnlyCoveredFilesCount == Done => \A k \in 1..Len(ProjR.files) : ProjR.files[k].cov <=> k <= 5 + Len(InvFiles)
 =================================================================================
